@@ -29,11 +29,11 @@ SPEC = {
             "mutants of the repository files (token insertion/deletion, truncation, indentation, non-ASCII, Kelvin "
             "sign, type word / key / value replacement); result = canonical dump of the structure or ERR class line; "
             "distinct = distinct case line; non-trivial = result is a structure (not ERR/PANIC). "
-            "ndl_run: cases = generated valid descriptions (senders with counts, send_message / capture / forward / "
+            "ndl_run: cases = generated valid descriptions (named and unnamed machines in any order, prefix-related names, senders with counts, send_message / capture / forward / "
             "ping_pong wired by name or address, ARP, auto-protocol) run in a child process; result = exit status and "
             "the model's reference evaluation of who sends what to whom; non-trivial = run ended with Exited.",
     "trusted_base": [
-        "Coq 8.16.1 kernel (coqc; vm_compute only for the concrete witnesses and C19_wf_satisfiable)",
+        "Coq 8.16.1 kernel (coqc; vm_compute only for the concrete witnesses C19_roundtrip_refuted and the C14 ones; C19_wf_satisfiable is a tactic proof)",
         "hand transcription parser.rs / parser_util.rs / network_parser.rs / machine_parser.rs / parsing_data.rs -> "
         "Model/Ndl.v, and of the nom 7.1.3 combinators (tag/tag_no_case/take_until/take_while1/char/none_of/escaped/"
         "alt/many0/delimited/preceded/separated_pair) from nom's source; checked by lock-step on sampled inputs",
